@@ -528,10 +528,11 @@ theorem lanczosPrims_rank (n : Nat) (c : Cfg) :
   refine ⟨rfl, ?_⟩
   omega
 
-/-- `KroneckerProductLinearOperator.root_inv_decomposition` ignores its `method` argument. -/
-theorem rootInvKron_method_irrelevant (ns : List Nat) (c : Cfg) (m m' : Option Method) :
-    rootInvKron ns c m = rootInvKron ns c m' := rfl
-
+/-- `KroneckerProductLinearOperator.root_inv_decomposition` above `max_cholesky_size`: the factors' inverse roots
+with the **same** `method` (forwarded since f68e44a), concatenated in factor order. -/
+theorem rootInvKron_forwards_method (ns : List Nat) (c : Cfg) (m : Option Method) (h : c.maxChol < prod ns) :
+    rootInvKron ns c m = seqOutcomes (ns.map fun k => rootInvBase k c m) "Root" := by
+  simp [rootInvKron, Nat.not_le.2 h]
 
 /-! ### Call histories (memoisation) -/
 
@@ -592,12 +593,6 @@ moved out of the key, the second call returns the first call's result. -/
 theorem memo_ignoreArgs_counterexample :
     memoRun (fun (_ : Unit) (m : Bool) => m) [] [((), true), ((), false)] ≠ [true, false] := by decide
 
-/-- The history model on a fresh base-class operator: a second call with the *same* (entry, method) is a hit on
-the first; a call with a different method is computed anew. -/
-theorem hrun_same_key_hits (n : Nat) (e : Entry) (m : Option Method) (c c' : Cfg) :
-    (hrun n [(e, m, c), (e, m, c')]).getLast? = some (.hit 0) ∨ (hrun n [(e, m, c), (e, m, c')]).getLast? = some (.side 0) := by
-  cases e <;> simp [hrun, hrunAux, hstep, hlookup, hinsert, hinner] <;> sorry
-
 /-! ### Facts regenerated from /repo's source on every run (translator `harness/extract/c06_factor.py`) -/
 
 /-- `_choose_root_method` in today's source has the shape the model `chooseRootMethod` mirrors: the three
@@ -632,9 +627,9 @@ theorem generated_defaults :
       Generated.C06.symeigDtype = "torch.double" := by decide +kernel
 
 /-- Structure: the upper Cholesky factor is the transposed lower factor (`chol_factorizes`), and the Kronecker
-`root_inv_decomposition` drops `method` on both branches (`rootInvKron_method_irrelevant`). -/
+`root_inv_decomposition` forwards `method` on both branches (`rootInvKron_forwards_method`). -/
 theorem generated_structure :
-    Generated.C06.cholUpperViaTranspose = true ∧ Generated.C06.kronRootInvDropsMethod = true := by decide +kernel
+    Generated.C06.cholUpperViaTranspose = true ∧ Generated.C06.kronRootInvForwardsMethod = true := by decide +kernel
 
 /-- The classes that override a factorization hook are exactly the ones the theorems above and the catalogue
 cover; a new or removed override changes this table and breaks the obligation. -/
@@ -656,6 +651,35 @@ theorem generated_overrides_covered :
        ("SumKroneckerLinearOperator", ["_root_decomposition", "_root_inv_decomposition"]),
        ("TriangularLinearOperator", ["_cholesky", "_root_decomposition", "_root_inv_decomposition"]),
        ("ZeroLinearOperator", ["_root_decomposition", "_root_inv_decomposition", "_root_decomposition_size"])] := by
+  decide +kernel
+
+/-- Keying discipline of the factorization caches in today's source: no `@cached(…, ignore_args=True)` on an entry
+whose function takes `method` (so that `memo_valid` / `memo_history_independent` apply: the key contains the
+method), nothing produces a `"symeig"` (or `"lanczos"`) cache entry (the `pop_from_cache(self, "symeig")` branch of
+`eigh/eigvalsh` and two probes of `_choose_root_method` stay dormant), and every entry taking `method` is keyed. -/
+theorem generated_cache_keyed_by_method :
+    (Generated.C06.cachedEntries.all fun e => !(e.2.2.2.1 && e.2.2.2.2)) = true ∧
+      (Generated.C06.cachedEntries.all fun e => e.2.2.1 != "symeig" && e.2.2.1 != "lanczos") = true ∧
+      (Generated.C06.cacheWriters.all fun w => w.2 != "symeig" && w.2 != "lanczos" && w.2 != "diagonalization") = true := by
+  decide +kernel
+
+/-- The only code that writes a factorization cache entry from *another* method is the set the history model
+(`hstep`: Lanczos inverse root ↦ `(root, none)`) and the derived-operator cells (`add_low_rank`, `cat_rows`) cover. -/
+theorem generated_cache_writers :
+    Generated.C06.cacheWriters =
+      [("LinearOperator._root_inv_decomposition", "root_decomposition"), ("LinearOperator._root_inv_decomposition", "root_decomposition"),
+       ("LinearOperator.add_low_rank", "root_decomposition"), ("LinearOperator.add_low_rank", "root_inv_decomposition"),
+       ("LinearOperator.cat_rows", "root_decomposition"), ("LinearOperator.cat_rows", "root_inv_decomposition")] := by
+  decide +kernel
+
+/-- The method-dependent cached entry points, all keyed by their arguments. -/
+theorem generated_cached_method_entries :
+    (Generated.C06.cachedEntries.filter fun e => e.2.2.2.2).map (fun e => (e.1, e.2.1, e.2.2.2.1)) =
+      [("ConstantMulLinearOperator", "root_decomposition", false),
+       ("KroneckerProductLinearOperator", "root_decomposition", false),
+       ("KroneckerProductLinearOperator", "root_inv_decomposition", false),
+       ("LinearOperator", "diagonalization", false), ("LinearOperator", "root_decomposition", false),
+       ("LinearOperator", "root_inv_decomposition", false)] := by
   decide +kernel
 
 /-! ### Satisfiability of the hypotheses (non-vacuity) -/
